@@ -481,6 +481,48 @@ func ruleInterruptUnwind(c *Ctx, r *R) {
 		for _, d := range deferrersOf(c, h) {
 			apiGuard = apiGuard || guardLevel(d, 0)
 		}
+		// inside the evaluator as well: some caller chain of the deferrer leads up to an evaluator entry without passing a
+		// function that guards the API (an unwrapper, its handlers, or a closure handed to one) - a helper that error
+		// construction or a built-in calls while a script runs. Such a handler must not unwrap, whatever else calls it
+		evalSide := false
+		{
+			seen := map[*ssa.Function]bool{}
+			var upE func(f *ssa.Function, start bool) bool
+			upE = func(f *ssa.Function, start bool) bool {
+				if seen[f] {
+					return false
+				}
+				seen[f] = true
+				if entries[f] {
+					return true
+				}
+				if !start {
+					if unwrappers[f] || handedToUnwrapper(f) {
+						return false
+					}
+					if p := f.Parent(); p != nil && unwrappers[p] {
+						return false
+					}
+				}
+				for cl := range callers[f] {
+					// a closure runs as part of its parent only when the parent calls it, defers it or hands it to a
+					// call; a closure that is stored (a native function's body) is a value, not a call
+					if cl == f.Parent() && !closureUsedInCall(f) {
+						continue
+					}
+					if upE(cl, false) {
+						if os.Getenv("OTTOCHECK_APIPATH") != "" {
+							fmt.Fprintln(os.Stderr, "  evalpath:", ssaFuncName(f), "<-", ssaFuncName(cl))
+						}
+						return true
+					}
+				}
+				return false
+			}
+			for _, d := range deferrersOf(c, h) {
+				evalSide = evalSide || upE(d, true)
+			}
+		}
 		key := "handler:" + ssaFuncName(h)
 		site := c.Pos(h.Pos())
 		var bad []string
@@ -494,7 +536,7 @@ func ruleInterruptUnwind(c *Ctx, r *R) {
 				bad = append(bad, "wraps the value again at "+c.Pos(instrPos(e.at)))
 			case marker != nil && api && apiGuard && e.kind == "same":
 				bad = append(bad, "re-panics the marker itself at "+c.Pos(instrPos(e.at))+" although nothing above it unwraps it: Run panics with the wrapper, not with the value the interrupt function panicked with")
-			case marker != nil && !api && e.kind == "unwrap":
+			case marker != nil && (!api || evalSide) && e.kind == "unwrap":
 				bad = append(bad, "unwraps the marker at "+c.Pos(instrPos(e.at))+" inside the evaluator: an enclosing try statement catches the bare value")
 			}
 		}
@@ -596,6 +638,38 @@ func condOnRecoveredOnly(v ssa.Value, depth int) bool {
 		return condOnRecoveredOnly(x.X, depth+1)
 	case *ssa.ChangeInterface:
 		return condOnRecoveredOnly(x.X, depth+1)
+	}
+	return false
+}
+
+// closureUsedInCall: the parent of the closure calls it, defers it, or passes it as an argument of a call.
+func closureUsedInCall(f *ssa.Function) bool {
+	p := f.Parent()
+	if p == nil {
+		return false
+	}
+	for _, b := range p.Blocks {
+		for _, ins := range b.Instrs {
+			ci, ok := ins.(ssa.CallInstruction)
+			if !ok {
+				continue
+			}
+			cc := ci.Common()
+			if mc, ok := cc.Value.(*ssa.MakeClosure); ok && mc.Fn == ssa.Value(f) {
+				return true
+			}
+			if cc.Value == ssa.Value(f) {
+				return true
+			}
+			for _, a := range cc.Args {
+				if mc, ok := a.(*ssa.MakeClosure); ok && mc.Fn == ssa.Value(f) {
+					return true
+				}
+				if a == ssa.Value(f) {
+					return true
+				}
+			}
+		}
 	}
 	return false
 }
